@@ -77,7 +77,18 @@ func GenCase(r *vh.Rng, flavor string) Case {
 	if r.Chance(60) {
 		c.Max = 3
 	}
+	if r.Chance(8) {
+		// the socket starts refusing writes at some point: plain error (writeOrClose closes the socket) or
+		// a close error (the peer went away)
+		c.FailWrite = 1 + r.Intn(6)
+		if r.Chance(35) {
+			c.FailMode = "close"
+		}
+	}
 	n := 5 + r.Intn(18)
+	if r.Chance(30) {
+		c.Ops = append(c.Ops, Op{Op: "tickarm", N: 1 + r.Intn(3)})
+	}
 	live := map[string]bool{}
 	var items []Item
 	liveIDs := func() []string {
@@ -99,7 +110,7 @@ func GenCase(r *vh.Rng, flavor string) Case {
 		c.Ops = append(c.Ops, Op{Op: "subscribe", ID: id, Q: r.Intn(FirstBadSubQuery), Sync: genSync(r)})
 		live[id] = true
 	}
-	fieldQuery := map[string]int{"a": 0, "s": 1, "items": 2, "obj": 3, "flag": 7}
+	fieldQuery := map[string]int{"a": 0, "s": 1, "items": 2, "obj": 3, "flag": 7, "tick": 8}
 	stale, blocked := -1, -1
 	if r.Chance(15) {
 		stale = r.Intn(n)
@@ -246,6 +257,95 @@ func GenCase(r *vh.Rng, flavor string) Case {
 		default: // resolver failure
 			c.Ops = append(c.Ops, Op{Op: "fail", Field: Fields[r.Intn(len(Fields))], N: 1 + r.Intn(3),
 				Mode: r.Pick([]string{"plain", "safe", "panic"}), Sync: genSync(r)})
+		}
+	}
+	return c
+}
+
+func isMessage(o Op) bool {
+	switch o.Op {
+	case "subscribe", "unsubscribe", "mutate", "echo", "url", "unknown", "badmsg":
+		return true
+	}
+	return false
+}
+
+func insertOps(ops []Op, i int, ins ...Op) []Op {
+	if i < 0 {
+		i = 0
+	}
+	if i > len(ops) {
+		i = len(ops)
+	}
+	out := append([]Op{}, ops[:i]...)
+	out = append(out, ins...)
+	return append(out, ops[i:]...)
+}
+
+// Variant derives a neighbour of a case on which model and implementation disagreed: one message moved,
+// duplicated or removed, an id changed to collide, a close / cancellation / invalidation / failure inserted at
+// a neighbouring position, the in-flight-run or the held-asynchronous-close family wrapped around a step, a
+// synchronisation point dropped, the socket made to refuse writes.
+func Variant(r *vh.Rng, seed Case) Case {
+	c := seed
+	c.Ops = append([]Op{}, seed.Ops...)
+	c.Origin = "search"
+	for k := 1 + r.Intn(3); k > 0; k-- {
+		if len(c.Ops) == 0 {
+			c.Ops = GenCase(r, "C17").Ops
+			continue
+		}
+		i := r.Intn(len(c.Ops))
+		switch r.Intn(11) {
+		case 0: // move a step to a neighbouring position
+			j := i + 1 + r.Intn(2)
+			if r.Bool() {
+				j = i - 1 - r.Intn(2)
+			}
+			if j >= 0 && j < len(c.Ops) {
+				c.Ops[i], c.Ops[j] = c.Ops[j], c.Ops[i]
+			}
+		case 1: // duplicate a step
+			c.Ops = insertOps(c.Ops, i+r.Intn(3), c.Ops[i])
+		case 2: // remove a step
+			c.Ops = append(c.Ops[:i:i], c.Ops[i+1:]...)
+		case 3: // make an id collide
+			var ids []string
+			for _, o := range c.Ops {
+				if o.ID != "" {
+					ids = append(ids, o.ID)
+				}
+			}
+			if len(ids) > 0 && c.Ops[i].ID != "" {
+				c.Ops[i].ID = ids[r.Intn(len(ids))]
+			}
+		case 4: // the connection ends at a neighbouring position
+			c.Ops = insertOps(c.Ops, i+r.Intn(2), Op{Op: r.Pick([]string{"close", "cancel", "malformed", "close"}), Sync: genSync(r)})
+		case 5: // an invalidation or a resolver failure at a neighbouring position
+			f := Fields[r.Intn(len(Fields))]
+			if r.Bool() {
+				c.Ops = insertOps(c.Ops, i+r.Intn(2), Op{Op: "set", Field: f, Int: int64(r.Intn(5)), Str: r.Pick(strVals), Perm: r.Chance(30), Sync: genSync(r)})
+			} else {
+				c.Ops = insertOps(c.Ops, i+r.Intn(2), Op{Op: "fail", Field: f, N: 1 + r.Intn(2), Mode: r.Pick([]string{"plain", "safe", "panic"}), Sync: genSync(r)})
+			}
+		case 6: // a computation is in flight when the step happens
+			f := Fields[r.Intn(len(Fields))]
+			c.Ops = insertOps(c.Ops, i, Op{Op: "fail", Field: f, N: 1, Mode: "block", Sync: "none"}, Op{Op: "awaitblock"})
+		case 7: // the asynchronous close of the step's id is held while the next steps happen
+			if id := c.Ops[i].ID; id != "" {
+				c.Ops = insertOps(c.Ops, i+1, Op{Op: "awaitpause", ID: id})
+				c.Ops = insertOps(c.Ops, i, Op{Op: "pause", ID: id})
+				c.Ops = insertOps(c.Ops, i+4+r.Intn(3), Op{Op: "release", ID: id, Sync: "settle"})
+			}
+		case 8: // drop or add a synchronisation point
+			c.Ops[i].Sync = genSync(r)
+		case 9: // the socket refuses writes from the k-th on
+			c.FailWrite = r.Intn(7)
+			c.FailMode = r.Pick([]string{"error", "close"})
+		default: // another query / unsubscribe of the same id right after
+			if isMessage(c.Ops[i]) {
+				c.Ops = insertOps(c.Ops, i+1, Op{Op: r.Pick([]string{"unsubscribe", "subscribe", "mutate"}), ID: c.Ops[i].ID, Q: r.Intn(FirstBadMutQuery), Sync: genSync(r)})
+			}
 		}
 	}
 	return c
